@@ -24,6 +24,11 @@ may start at any time (this covers an event loop = one consumer, and thread pool
 schedulers = many consumers).  Any number of producers, any number of consumers; a schedule is a
 list of thread ids; a step of a thread that is not enabled is a no-op.
 
+`ScheduledObserver.dispose()` (used by ReplaySubject on unsubscribe; never called on the observe_on path) is modelled by
+"disposer" threads: `is_stopped = True`, then `self.disposable.dispose()` — the SerialDisposable that holds the disposable of
+the run scheduled by `ensure_active` (NOT of the runs re-scheduled by `run` itself): a still-pending owner-scheduled run is
+cancelled (and one scheduled later is cancelled as soon as it is assigned), after which nothing is ever delivered again.
+
 Ghost state (not in the code, used to state the theorems): `received` (append order),
 `delivered` (order in which downstream callbacks were entered), `raisedG` (a delivery raised).
 -/
@@ -38,6 +43,14 @@ deriving Repr, BEq, DecidableEq
 
 inductive PPc where
   | ready | needMark | toAppend | appended | owing
+  | assign (rid : Nat)      -- `self.disposable.disposable = d` (d = disposable of run `rid`): SerialDisposable's locked test-and-store
+  | cancelRun (rid : Nat)   -- the SerialDisposable was already disposed: `d.dispose()` (cancels run `rid` if it is still pending)
+deriving Repr, BEq, DecidableEq
+
+/-- a thread calling `ScheduledObserver.dispose()`: `is_stopped = True`, then `self.disposable.dispose()` =
+locked `is_disposed = True; old = current; current = None`, then `old.dispose()` -/
+inductive DPc where
+  | start | stopped | flagged (old : Option Nat) | done
 deriving Repr, BEq, DecidableEq
 
 structure Prod (α : Type) where
@@ -57,6 +70,7 @@ deriving Repr, BEq, DecidableEq
 inductive Tid where
   | prod (i : Nat)
   | cons (j : Nat)
+  | disp (k : Nat)
 deriving Repr, BEq, DecidableEq
 
 /-- what a step did (compared with the events observed on the real code). -/
@@ -75,6 +89,10 @@ inductive Lbl (α : Type) where
   | dend (raised : Bool)
   | fault
   | resched
+  | assign (disposed : Bool)      -- SerialDisposable.set_disposable's locked section; disposed = it was already disposed
+  | cancelRun (cancelled : Bool)  -- `d.dispose()` on the scheduled run's disposable; cancelled = the run was still pending
+  | dstop                         -- dispose(): `is_stopped = True`
+  | dflag                         -- dispose(): SerialDisposable.dispose's locked section
 deriving Repr, BEq, DecidableEq
 
 structure Sys (α : Type) where
@@ -83,8 +101,14 @@ structure Sys (α : Type) where
   hasFaulted : Bool := false
   isStopped : Bool := false
   pendingRuns : Nat := 0
+  pendingId : Nat := 0           -- identity of the pending run (meaningful while pendingRuns ≥ 1)
+  nextRun : Nat := 0             -- fresh run identities
+  heldId : Option Nat := none    -- the run whose disposable the SerialDisposable currently holds
+  serialDisposed : Bool := false -- `self.disposable` (SerialDisposable) has been disposed
+  lostToken : Bool := false      -- ghost: a pending run was cancelled by dispose: the ownership token is gone for good
   prods : List (Prod α) := []
   cons : List (CPc α) := []
+  disps : List DPc := []
   received : List α := []
   delivered : List α := []
   raisedG : Bool := false
@@ -110,7 +134,17 @@ def prodStep (s : Sys α) (p : Prod α) : Sys α × Prod α × Lbl α :=
         if s.isAcquired then (s, { calls := rest, pc := .ready }, .ea false)
         else ({ s with isAcquired := true }, { p with pc := .owing }, .ea true)
       else (s, { calls := rest, pc := .ready }, .ea false)
-    | .owing => ({ s with pendingRuns := s.pendingRuns + 1 }, { calls := rest, pc := .ready }, .sched)
+    | .owing =>
+      ({ s with pendingRuns := s.pendingRuns + 1, pendingId := s.nextRun, nextRun := s.nextRun + 1 },
+        { p with pc := .assign s.nextRun }, .sched)
+    | .assign rid =>
+      if s.serialDisposed then (s, { p with pc := .cancelRun rid }, .assign true)
+      else ({ s with heldId := some rid }, { calls := rest, pc := .ready }, .assign false)
+    | .cancelRun rid =>
+      -- (this pc is only reached after `serialDisposed` was read true and the flag is never reset; the guard repeats it)
+      if s.pendingRuns ≥ 1 ∧ s.pendingId = rid ∧ s.serialDisposed = true then
+        ({ s with pendingRuns := 0, lostToken := true }, { calls := rest, pc := .ready }, .cancelRun true)
+      else (s, { calls := rest, pc := .ready }, .cancelRun false)
 
 /-- one atomic step of a consumer at `pc`; `raises k` = the k-th downstream callback raises. -/
 def consStep (raises : Nat → Bool) (s : Sys α) (pc : CPc α) : Sys α × CPc α × Lbl α :=
@@ -128,7 +162,19 @@ def consStep (raises : Nat → Bool) (s : Sys α) (pc : CPc α) : Sys α × CPc 
     if raises (s.delivered.length - 1) then ({ s with raisedG := true }, .faulting, .dend true)
     else (s, .resched, .dend false)
   | .faulting => ({ s with queue := [], hasFaulted := true }, .idle, .fault)
-  | .resched => ({ s with pendingRuns := s.pendingRuns + 1 }, .idle, .resched)
+  | .resched => ({ s with pendingRuns := s.pendingRuns + 1, pendingId := s.nextRun, nextRun := s.nextRun + 1 }, .idle, .resched)
+
+/-- one atomic step of a thread executing `dispose()` -/
+def dispStep (s : Sys α) (pc : DPc) : Sys α × DPc × Lbl α :=
+  match pc with
+  | .start => ({ s with isStopped := true }, .stopped, .dstop)
+  | .stopped => ({ s with serialDisposed := true, heldId := none }, .flagged s.heldId, .dflag)
+  | .flagged none => (s, .done, .cancelRun false)
+  | .flagged (some rid) =>
+    if s.pendingRuns ≥ 1 ∧ s.pendingId = rid ∧ s.serialDisposed = true then
+      ({ s with pendingRuns := 0, lostToken := true }, .done, .cancelRun true)
+    else (s, .done, .cancelRun false)
+  | .done => (s, .done, .noop)
 
 def stepL (raises : Nat → Bool) (s : Sys α) : Tid → Sys α × Lbl α
   | .prod i =>
@@ -143,6 +189,12 @@ def stepL (raises : Nat → Bool) (s : Sys α) : Tid → Sys α × Lbl α
     | some pc =>
       let (s', pc', l) := consStep raises s pc
       ({ s' with cons := s.cons.set j pc' }, l)
+  | .disp k =>
+    match s.disps[k]? with
+    | none => (s, .noop)
+    | some pc =>
+      let (s', pc', l) := dispStep s pc
+      ({ s' with disps := s.disps.set k pc' }, l)
 
 def step (raises : Nat → Bool) (s : Sys α) (t : Tid) : Sys α := (stepL raises s t).1
 
@@ -157,8 +209,9 @@ def runL (raises : Nat → Bool) (s : Sys α) : List Tid → Sys α × List (Lbl
     (s2, l :: ls)
 
 /-- initial system: producers with their call lists, `nc` idle consumers. -/
-def init (progs : List (List (Call α))) (nc : Nat) : Sys α :=
-  { prods := progs.map fun cs => { calls := cs, pc := .ready }, cons := List.replicate nc .idle }
+def init (progs : List (List (Call α))) (nc : Nat) (nd : Nat := 0) : Sys α :=
+  { prods := progs.map fun cs => { calls := cs, pc := .ready }, cons := List.replicate nc .idle,
+    disps := List.replicate nd .start }
 
 def prodDone (p : Prod α) : Bool := p.calls.isEmpty
 
@@ -169,6 +222,6 @@ def CPc.isIdle : CPc α → Bool
 /-- nothing left to do anywhere: every producer finished all its calls, no `run` is pending on the
 scheduler and no consumer is inside `run`. -/
 def quiescent (s : Sys α) : Bool :=
-  s.prods.all prodDone && s.pendingRuns == 0 && s.cons.all CPc.isIdle
+  s.prods.all prodDone && s.pendingRuns == 0 && s.cons.all CPc.isIdle && s.disps.all (· == .done)
 
 end Thr.SO
